@@ -28,6 +28,8 @@ YearV == [ absent |-> None,
            textempty |-> Some([type |-> TEXT, data |-> <<>>]),
            textabc |-> Some([type |-> TEXT, data |-> <<97, 98, 99>>]),
            bin3 |-> Some([type |-> BINARY, data |-> <<0, 7, 216>>]),
+           textutf |-> Some([type |-> TEXT, data |-> <<50, 48, 226, 130, 172, 56, 45, 48, 53>>]),
+           textbad |-> Some([type |-> TEXT, data |-> <<50, 48, 48, 255, 45, 48, 53, 45, 50>>]),
            bin0 |-> Some([type |-> BINARY, data |-> <<>>]),
            bin1 |-> Some([type |-> BINARY, data |-> <<9>>]),
            bin5 |-> Some([type |-> BINARY, data |-> <<0, 0, 7, 216, 1>>]),
@@ -64,6 +66,7 @@ ShapeV == [ mdir |-> [present |-> "full", fullbox |-> TRUE, handler |-> MDIR],
             mdta |-> [present |-> "full", fullbox |-> TRUE, handler |-> <<109, 100, 116, 97>>],
             zero |-> [present |-> "full", fullbox |-> TRUE, handler |-> <<0, 0, 0, 0>>],
             noilst |-> [present |-> "meta", fullbox |-> TRUE, handler |-> MDIR],
+            noilstqt |-> [present |-> "meta", fullbox |-> FALSE, handler |-> MDIR],
             nometa |-> [present |-> "udta", fullbox |-> TRUE, handler |-> MDIR],
             noudta |-> [present |-> "none", fullbox |-> TRUE, handler |-> MDIR] ]
 
